@@ -610,7 +610,7 @@ def run_main(case):
     except core.HarnessError:
         raise
     except Exception as e:  # every case is an accepted input (unitary ops, valid state, valid order): no rejection is legal
-        return bad(f"{kind}[{dt},split={split}] raised {type(e).__name__}: {e}\n{ctx()}\n{traceback.format_exc(limit=-6)}",
+        return bad(f"{kind}[{dt},split={split}] raised {type(e).__name__}: {e}\n{ctx()}\n{traceback.format_exc(limit=-3)}",
                    kind="exception", exception=type(e).__name__, **_sig(kind, split, init, oi, ops))
     if rk == "unitary":
         r = _cmp(f"{kind}[{dt}]", U, val, atol, ctx)
@@ -709,7 +709,7 @@ def run_sweep(case):
     try:
         results = list(sim.simulate_sweep(circ, cirq.Points("s", list(pts)), **kw))
     except Exception as e:
-        return bad(f"simulate_sweep {kind}[{dt},split={split}] raised {type(e).__name__}: {e}\n{ctx()}\n{traceback.format_exc(limit=-6)}",
+        return bad(f"simulate_sweep {kind}[{dt},split={split}] raised {type(e).__name__}: {e}\n{ctx()}\n{traceback.format_exc(limit=-3)}",
                    kind="exception", exception=type(e).__name__, **_sig("sweep-" + kind, split, init, oi, ops))
 
     if len(results) != len(pts):
